@@ -8,14 +8,18 @@ from props._fa_common import TRUSTED, ASSUMPTIONS, TECHNIQUE
 
 PROP = "C05"
 LEVEL = "other"
-THEOREMS = {"Properties.C05": ["C05_regex_automaton", "C05_matcher", "C05_equiv_certificate", "C05_operator_spellings_from_source", "C05_precedence_instances"]}
+THEOREMS = {"Properties.C05": ["C05_regex_automaton", "C05_matcher", "C05_equiv_certificate", "C05_operator_spellings_from_source", "C05_precedence_instances",
+                             "C05_to_epsilon_nfa_model", "C05_to_cfg_model"]}
 LEVEL_TEXT = ("Partial proof + correspondence: the denotation of regular expressions, the automaton construction re_fa (proved: Lang (re_fa r) = den r), the "
               "derivative matcher (proved exact) and the exact equivalence check are machine-checked for all expressions. The documented concrete syntax is "
               "given by a reference recursive-descent parser in Gallina (precedence star > concatenation > union, both operator spellings, epsilon/$, "
               "escapes); pyformlang's parser is compared with it on generated texts (minimal and redundant parentheses, all spacings): the tree it builds, "
               "accepts(), to_epsilon_nfa(), to_cfg(), the combinators and str() round trip are all decided against the reference by the exact equivalence "
-              "check; ill-formed text must raise MisformedRegexError and nothing else. The reference parser itself and pyformlang's tokeniser are not "
-              "verified against a printer (no round-trip theorem yet).")
+              "check; ill-formed text must raise MisformedRegexError and nothing else. Regex.to_epsilon_nfa (pyformlang's own Thompson-style construction "
+              "with its running state counter) and Regex.to_cfg (one variable per node) are mirrored in Gallina and proved to denote den r for every "
+              "expression; what pyformlang returns is compared structurally (states, transitions; variables, productions) with these models on every "
+              "generated expression. The reference parser itself and pyformlang's tokeniser are not verified against a printer (no round-trip theorem "
+              "yet), which is why the level stays 'other'.")
 LEVEL_NOTE = "Trusted: Coq kernel; the reference parser as the reading of the documented grammar; Python harness (renders token lists to text)."
 RULE = ("generated expressions (depth <= 4; symbols of 1-3 characters, escaped operators, epsilon and $; both spellings of union and concatenation; minimal, "
         "redundant and doubled parentheses; with and without blanks around operators) + ill-formed texts (unbalanced, dangling or doubled operators, "
@@ -160,11 +164,42 @@ def impl(case):
         out["tree_str_error"] = type(e).__name__
     g = r.to_cfg()
     out["cfg_bits"] = [bool(g.contains([Terminal(a) for a in w])) for w in ws]
+    out["cfg"] = cfglib.extract_cfg(g)
     if case["op"] == "combine":      # the operands must still answer like freshly parsed expressions once the combination has been compiled
         out["operand_after"] = [[bool(r1.accepts(w)) for w in ws], [bool(r2.accepts(w)) for w in ws] if case["comb"] != "kleene_star" else None]
         out["operand_fresh"] = [[bool(Regex(case["text"]).accepts(w)) for w in ws],
                                 [bool(Regex(case["text2"]).accepts(w)) for w in ws] if case["comb"] != "kleene_star" else None]
     return out
+
+
+def _binary(tree):
+    return (len(tree) == 3 if tree[0] in ("cat", "alt") else True) and all(_binary(t) for t in tree[1:] if isinstance(t, list))
+
+
+def _coq_rvar(v):
+    """variables of Regex.to_cfg: the start symbol "S" and the node variables "A<n>" """
+    if v == "S":
+        return "None"
+    if isinstance(v, str) and v[:1] == "A" and v[1:].isdigit() and str(int(v[1:])) == v[1:]:
+        return "(Some %d%%nat)" % int(v[1:])
+    raise ValueError(v)
+
+
+def _coq_regex_cfg(g, sym):
+    """(variables, terminals, productions) of the grammar returned by to_cfg, as Coq literals over rvar"""
+    prods = ["(%s, [%s])" % (_coq_rvar(h), "; ".join("V %s" % _coq_rvar(v) if k == "V" else "T %d" % sym(v) for k, v in b)) for h, b in g["prods"]]
+    return "[%s] [%s] [%s]" % ("; ".join(_coq_rvar(v) for v in g["vars"]), "; ".join("%d" % sym(t) for t in g["terms"]), "; ".join(prods))
+
+
+def _coq_enfa_nat(spec, sym):
+    """automaton returned by to_epsilon_nfa as a Coq literal whose states are the counter values (nat)"""
+    def st(x):
+        if isinstance(x, bool) or not isinstance(x, int) or x < 0:
+            raise ValueError(x)
+        return "%d%%nat" % x
+    trans = ["(%s, %s, %s)" % (st(a), "None" if l is None else "Some %d" % sym(l), st(b)) for a, l, b in spec["trans"]]
+    return "(mkE [%s] [%s] [%s] [%s] [%s])" % ("; ".join(st(x) for x in spec["states"]), "; ".join("%d" % sym(a) for a in spec["symbols"]),
+                                                  "; ".join(trans), "; ".join(st(x) for x in spec["starts"]), "; ".join(st(x) for x in spec["finals"]))
 
 
 def _coq_toks(toks, sym):
@@ -206,8 +241,19 @@ def check_cases(ctx, cases):
             ws = cq([[sym(a) for a in w] for w in _words(c)])
             if T is None:
                 continue
-            lines.append("Eval vm_compute in (match %s with Some r => Some (judge_re2 r %s, judge (renumber (re_fa r)) %s, map (re_matches r) %s, %s) | None => None end)." % (
-                ref, T, E, ws, ("judge_re2 r %s" % TS) if TS else "VFuel"))
+            # the grammar returned by to_cfg against the model re_cfg applied to pyformlang's own tree (exact: variables, terminals, productions)
+            try:
+                CG = "re_cfg_same %s %s" % (T, _coq_regex_cfg(o["cfg"], sym)) if (_binary(o["tree"]) and o["cfg"]["start"] == "S") else "false"
+            except ValueError:
+                CG = "false"
+            # the automaton returned by to_epsilon_nfa against the model re_enfa (Thompson construction with the running counter) applied to
+            # pyformlang's own tree: same states, symbols, transitions, start and final states
+            try:
+                TH = "re_enfa_same %s %s" % (T, _coq_enfa_nat(o["enfa"], sym)) if _binary(o["tree"]) else "false"
+            except ValueError:
+                TH = "false"
+            lines.append("Eval vm_compute in (match %s with Some r => Some (judge_re2 r %s, judge (renumber (re_fa r)) %s, map (re_matches r) %s, %s, %s, %s) | None => None end)." % (
+                ref, T, E, ws, ("judge_re2 r %s" % TS) if TS else "VFuel", CG, TH))
             keep.append(i)
         srcs.append("From PFL Require Import Eval.FA.\n" + "\n".join(lines) + "\n")
         idxs.append(keep)
@@ -240,7 +286,7 @@ def check_cases(ctx, cases):
         if o.get("operand_after") != o.get("operand_fresh"):
             ctx.fail("combine-changes-operand", c, {"after": o.get("operand_after"), "fresh": o.get("operand_fresh")})
             continue
-        jt, je, bits, js = mv[1]
+        jt, je, bits, js, cg, thm = mv[1]
         if jt != "VEq":
             ctx.fail("parse-tree-language", c, {"verdict": str(jt), "tree": o["tree"]})
         elif je != "VEq":
@@ -253,7 +299,13 @@ def check_cases(ctx, cases):
             ctx.fail("str-does-not-parse", c, {"str": o["str"], "error": o["tree_str_error"]})
         elif js not in ("VEq", "VFuel"):
             ctx.fail("str-roundtrip-language", c, {"str": o["str"], "verdict": str(js)})
-
+        # structural agreement with the proved models, once everything the property speaks about has been checked on this case
+        elif cg is not True:
+            ctx.fail("to_cfg-model", c, {"impl": o["cfg"], "tree": o["tree"]}, correspondence_only=True)
+        elif thm is not True:
+            ctx.fail("to_epsilon_nfa-model", c, {"impl": o["enfa"], "tree": o["tree"]}, correspondence_only=True)
+        else:
+            ctx.dist["to_cfg and to_epsilon_nfa structurally identical to the proved models"] += 1
 
 def shrink_candidates(case):
     return []
